@@ -114,7 +114,7 @@ func gen(t *rapid.T) Case {
 	c.Peers = append(c.Peers, first)
 	// Fault plan first, because a corrupting seeder must exist to be chosen.
 	hasCorrupt := rapid.IntRange(0, 9).Draw(t, "has_corrupt") < 6
-	corruptSeeder := hasCorrupt && rapid.IntRange(0, 9).Draw(t, "corrupt_is_seeder") < 7
+	corruptSeeder := hasCorrupt && rapid.IntRange(0, 9).Draw(t, "corrupt_is_seeder") < 6
 	if corruptSeeder || rapid.IntRange(0, 2).Draw(t, "second_seeder") == 0 {
 		s := genPeer(t, rapid.SampledFrom([]int{kindOrigin, kindSeeder}).Draw(t, "seeder1_kind"), "p1_")
 		if corruptSeeder {
